@@ -1,8 +1,10 @@
 (* C01, graph level: pending propagation (Workflow.mark_step_pending / mark_file_outdated, as
    modelled by Graph.mark_step_pending_f / mark_file_outdated_f) preserves K = NoStaleSuccess.
 
-   Hypotheses: step labels are unique (conjunct inv_rows_b of C09's invariant) and every file has
-   at most one producing step edge (single_producer).  Result: K_mark_step_pending,
+   Hypotheses: step labels are unique (conjunct inv_rows_b of C09's invariant) and every ATTACHED
+   file has at most one producing step edge (single_producer).  Both follow from C09's invariant
+   inv_core_b, which holds in every reachable state (proofs/NoStaleInv.v); a detached file may keep
+   the output edge of a former producer, and K does not look at detached outputs.  Result: K_mark_step_pending,
    K_mark_consumers_pending, and from them K for OpMarkStepPending and for the startup rescan of
    static files (OpUpdateHashes with cause EXTERNAL / CONFIRMED on UNCONFIRMED, MISSING or
    CONFIRMED files). *)
@@ -92,11 +94,16 @@ Proof. intros ((_ & D & _) & _). unfold step_sinks_of_file, sinks_of. rewrite D.
 Lemma Mk_outputs s s' l : Mk s s' -> file_sinks_of_step l s' = file_sinks_of_step l s.
 Proof. intros ((_ & D & _) & _). unfold file_sinks_of_step, sinks_of. rewrite D. reflexivity. Qed.
 
-(* every file that the marking outdated has only non-SUCCEEDED consumers and producers *)
+Lemma Mk_detached s s' k : Mk s s' -> is_detached k s' = is_detached k s.
+Proof. intros ((N & _) & _). unfold is_detached, find_node. rewrite N. reflexivity. Qed.
+
+(* every file that the marking outdated has only non-SUCCEEDED consumers and, when it is
+   attached, only non-SUCCEEDED producers *)
 Definition Cl (s s' : st) : Prop :=
   forall f, fstate_of f s = Some FBuilt -> fstate_of f s' = Some FOutdated ->
             (forall l, In l (step_sinks_of_file f s) -> not_succ s' l) /\
-            (forall l, In f (file_sinks_of_step l s) -> not_succ s' l).
+            (is_detached (KFile, f) s = false ->
+             forall l, In f (file_sinks_of_step l s) -> not_succ s' l).
 
 Lemma Cl_refl s : Cl s s.
 Proof. intros f H1 H2. congruence. Qed.
@@ -108,10 +115,11 @@ Proof.
   - (* still BUILT in s2: outdated by the second part *)
     rewrite B1 in E. destruct (C23 f E O3) as [Hc Hp]. split.
     + intros l Hl. apply Hc. rewrite (Mk_consumers s1 s2 f M12). exact Hl.
-    + intros l Hl. apply Hp. rewrite (Mk_outputs s1 s2 l M12). exact Hl.
+    + intros Ha l Hl. apply Hp; [rewrite (Mk_detached s1 s2 _ M12); exact Ha|].
+      rewrite (Mk_outputs s1 s2 l M12). exact Hl.
   - destruct (C12 f B1 O2) as [Hc Hp]. split.
     + intros l Hl. apply (Mk_not_succ s2 s3 l M23). apply Hc. exact Hl.
-    + intros l Hl. apply (Mk_not_succ s2 s3 l M23). apply Hp. exact Hl.
+    + intros Ha l Hl. apply (Mk_not_succ s2 s3 l M23). apply Hp; assumption.
 Qed.
 
 (* ------------------------------------------------------------------------------------------ *)
@@ -221,22 +229,32 @@ Qed.
 (* ------------------------------------------------------------------------------------------ *)
 (* The mutual recursion                                                                        *)
 (* ------------------------------------------------------------------------------------------ *)
-(* every file has at most one producing step edge *)
+(* every attached file has at most one producing step edge *)
 Definition single_producer (s : st) : Prop :=
-  forall f l1 l2, In f (file_sinks_of_step l1 s) -> In f (file_sinks_of_step l2 s) -> l1 = l2.
+  forall f l1 l2, is_detached (KFile, f) s = false ->
+                  In f (file_sinks_of_step l1 s) -> In f (file_sinks_of_step l2 s) -> l1 = l2.
 
 Lemma single_producer_Mk s s' : Mk s s' -> single_producer s -> single_producer s'.
 Proof.
-  intros M H f l1 l2 H1 H2. rewrite (Mk_outputs s s' l1 M) in H1. rewrite (Mk_outputs s s' l2 M) in H2.
-  exact (H f l1 l2 H1 H2).
+  intros M H f l1 l2 Ha H1 H2. rewrite (Mk_detached s s' _ M) in Ha.
+  rewrite (Mk_outputs s s' l1 M) in H1. rewrite (Mk_outputs s s' l2 M) in H2.
+  exact (H f l1 l2 Ha H1 H2).
 Qed.
 
+Lemma single_producer_same_graph s s' : same_graph s s' -> single_producer s -> single_producer s'.
+Proof.
+  intros (N & D & _) H f l1 l2 Ha H1 H2. unfold is_detached, find_node in Ha. rewrite N in Ha.
+  unfold file_sinks_of_step, sinks_of in H1, H2. rewrite D in H1, H2. exact (H f l1 l2 Ha H1 H2).
+Qed.
+
+(* the producers of [f], when [f] is attached, are not SUCCEEDED *)
 Definition producers_not_succ (s : st) (f : str) : Prop :=
-  forall l, In f (file_sinks_of_step l s) -> not_succ s l.
+  is_detached (KFile, f) s = false -> forall l, In f (file_sinks_of_step l s) -> not_succ s l.
 
 Lemma producers_not_succ_Mk s s' f : Mk s s' -> producers_not_succ s f -> producers_not_succ s' f.
 Proof.
-  intros M H l Hl. rewrite (Mk_outputs s s' l M) in Hl. apply (Mk_not_succ s s' l M). apply H. exact Hl.
+  intros M H Ha l Hl. rewrite (Mk_detached s s' _ M) in Ha. rewrite (Mk_outputs s s' l M) in Hl.
+  apply (Mk_not_succ s s' l M). apply H; assumption.
 Qed.
 
 Lemma mark_mutual (fuel : nat) :
@@ -278,7 +296,7 @@ Proof.
               destruct (fstate_of f s0) as [[]|] eqn:Ef;
               try (injection Hcall as <-; split; [apply Mk_refl|]; split; [apply Cl_refl|exact I]);
               destruct (IHf f s0 s0' Hq1) as [Ma Ca]; [|exact Hcall|split; [exact Ma|split; [exact Ca|exact I]]];
-              intros l0 Hl0; rewrite (Hq1 f l0 l Hl0 Hq2); unfold not_succ; rewrite Hq3; discriminate).
+              intros Hatt l0 Hl0; rewrite (Hq1 f l0 l Hatt Hl0 Hq2); unfold not_succ; rewrite Hq3; discriminate).
     all: split; [exact (Mk_trans _ _ _ M1 M2)|]; split.
     all: try (apply (Cl_trans s s1 s' M1 M2); [|exact C2]; apply Cl_no_file_change; exact Fsame).
     all: apply (Mk_not_succ s1 s' l M2); unfold not_succ; rewrite Hl1; discriminate.
@@ -300,11 +318,12 @@ Proof.
         intros g Bg Og. destruct (str_eqb g f) eqn:Eg.
         -- apply str_eqb_eq in Eg. subst g. split.
            ++ intros l Hl. apply R2. rewrite (Mk_consumers s s1 f M1). exact Hl.
-           ++ intros l Hl. apply (Mk_not_succ s s' l (Mk_trans _ _ _ M1 M2)). apply Hprod. exact Hl.
+           ++ intros Ha l Hl. apply (Mk_not_succ s s' l (Mk_trans _ _ _ M1 M2)). apply Hprod; assumption.
         -- apply str_eqb_false in Eg. rewrite <- (Oth g Eg) in Bg.
            destruct (C2 g Bg Og) as [Hc Hp]. split.
            ++ intros l Hl. apply Hc. rewrite (Mk_consumers s s1 g M1). exact Hl.
-           ++ intros l Hl. apply Hp. rewrite (Mk_outputs s s1 l M1). exact Hl.
+           ++ intros Ha l Hl. apply Hp; [rewrite (Mk_detached s s1 _ M1); exact Ha|].
+              rewrite (Mk_outputs s s1 l M1). exact Hl.
     + (* already OUTDATED *)
       injection H as <-. split; [apply Mk_refl|apply Cl_refl].
 Qed.
@@ -369,9 +388,9 @@ Proof.
       destruct kk; try discriminate. cbn. apply str_eqb_refl.
   - rewrite (Mk_outputs s s' (sl r') M). rewrite forallb_forall in *. intros f Hf.
     specialize (Hout f Hf). unfold output_ok in *. rewrite Hdet.
-    destruct (is_detached (KFile, f) s); [reflexivity|]. cbn [orb] in *.
+    destruct (is_detached (KFile, f) s) eqn:Edf; [reflexivity|]. cbn [orb] in *.
     destruct (Ff f) as [E|[B O]]; [rewrite E; exact Hout|].
-    exfalso. apply Hns. destruct (C f B O) as [_ Hp]. apply Hp. exact Hf.
+    exfalso. apply Hns. destruct (C f B O) as [_ Hp]. apply (Hp Edf). exact Hf.
 Qed.
 
 Lemma fuel_ok_unused : True. Proof. exact I. Qed.
